@@ -31,6 +31,7 @@ MODELLED["C09"] = ["layer4.Server.servePacket", "layer4.Server.handle", "layer4.
 MODELLED["C07"] = ["l4tls.parseRawClientHello", "l4tls.supportedVersionsFromMax", "l4tls.readUint8LengthPrefixed", "l4tls.readUint16LengthPrefixed", "l4tls.MatchTLS.Match", "l4tls.MatchALPN.Match"]
 MODELLED["C16"] = ["l4socks.Socks5Handler.Provision", "l4socks.Socks5Handler.Handle"]
 MODELLED["C03"] = ["l4proxy.Handler.proxy", "l4proxy.Handler.Handle", "l4proxy.Handler.dialPeers"]
+MODELLED["C11"] = ["l4proxy.Handler.Handle", "l4proxy.Handler.dialPeers", "l4proxy.Handler.countFailure", "l4proxy.LoadBalancing.tryAgain", "l4proxy.Upstream.available", "l4proxy.Upstream.healthy", "l4proxy.Upstream.full", "l4proxy.peer.countConn", "l4proxy.peer.countFail", "l4proxy.peer.setHealthy", "l4proxy.Handler.doActiveHealthCheck", "l4proxy.Upstream.provision"]
 MODELLED["C17"] = ["l4throttle.throttledConn.Read", "l4throttle.Handler.Handle", "l4throttle.Handler.Provision"]
 rows = {}
 for m in re.finditer(r'⟨"([^"]+)", "([0-9a-f]+)", (\d+), (\d+), (\d+), (\d+), (\d+), (\d+)⟩', open(os.path.join(V, "lean/L4/Gen/Census.lean")).read()):
